@@ -114,6 +114,17 @@ fn main() {
         println!("probe workspaces warm");
         return;
     }
+    if args[0] == "gen" {
+        // developer aid: vcheck gen <file.wgsl> [opts-json] -> prints the outcome
+        vcore::preflight::quiet_panics();
+        let src = std::fs::read_to_string(&args[1]).expect("read wgsl");
+        let opts = args.get(2).map(|j| vcore::worker::opts_from_json(&serde_json::from_str(j).expect("opts json"))).unwrap_or_default();
+        match sut.generate(&src, None, &opts) {
+            Outcome::Ok(t) => println!("{t}"),
+            other => println!("{}", other.brief()),
+        }
+        return;
+    }
     if args[0] == "selftest" {
         vcore::selftest::run(&sut, &args[1..]);
     }
